@@ -75,7 +75,7 @@ def campaign(tier, seed):
             return st.load()
         t0 = time.time()
         build_harness()
-        maxlen, pairs, nrand, rlen = (5, 3, 8000, 16) if tier == "quick" else (7, 4, 60000, 28)
+        maxlen, pairs, nrand, rlen = (5, 3, 8000, 16) if tier == "quick" else (6, 4, 100000, 28)
         cfg = st.path("MC_Lower.cfg")
         open(cfg, "w").write(
             "SPECIFICATION Spec\nCONSTANTS MaxLen = %d\n MaxDepth = 2\n MaxPlan = 2\n MaxLenPairs = %d\n"
